@@ -169,10 +169,10 @@ def gen_file(r, prof, depth, sections, subsecs, allow_special=True):
             for k in r.sample(secs_all, 1 + r.below(3)):
                 dests = [s for s in secs_all if s != k]
                 if dests:
-                    so[k] = r.pick(dests)
+                    so[k] = k if r.chance(0.08) else r.pick(dests)      # (an identity entry: the section stays where it is)
             if prof.wellformed:
                 # keep it a one-step relocation: a destination is never itself relocated
-                so = {k: v for k, v in so.items() if v not in so}
+                so = {k: v for k, v in so.items() if v not in so or v == k}
             if so:
                 f["section_order"] = so
     gen_cond(r, prof, f)
